@@ -13,6 +13,7 @@ import tempfile
 from concurrent.futures import ThreadPoolExecutor
 
 VERIF = os.path.dirname(os.path.dirname(os.path.abspath(__file__)))
+DIR = 'seeded'
 
 
 def claimed():
@@ -22,7 +23,7 @@ def claimed():
 
 def run_one(args):
     name, props = args
-    d = os.path.join(VERIF, 'seeded', name)
+    d = os.path.join(VERIF, DIR, name)
     scratch = tempfile.mkdtemp(prefix='verif-seed-', dir='/var/tmp')
     try:
         shutil.copytree('/repo/include', os.path.join(scratch, 'include'))
@@ -45,23 +46,45 @@ def main():
     ap.add_argument('-k', default=None)
     ap.add_argument('--all-checks', action='store_true')
     ap.add_argument('-j', type=int, default=4)
+    ap.add_argument('--dir', default='seeded', help='seeded (expect a violation) or refactors (behaviour-preserving: expect silence)')
     a = ap.parse_args()
-    names = sorted(n for n in os.listdir(os.path.join(VERIF, 'seeded')) if os.path.exists(os.path.join(VERIF, 'seeded', n, 'patch.diff')))
+    global DIR
+    DIR = a.dir
+    names = sorted(n for n in os.listdir(os.path.join(VERIF, DIR)) if os.path.exists(os.path.join(VERIF, DIR, n, 'patch.diff')))
     if a.k:
         names = [n for n in names if a.k in n]
     cl = claimed()
     jobs = []
     for n in names:
         own = n.split('-')[0]
-        props = cl if a.all_checks else [p for p in cl if p == own]
+        props = cl if (a.all_checks or DIR != 'seeded') else [p for p in cl if p == own]
         jobs.append((n, props))
+    allres = {}
     with ThreadPoolExecutor(max_workers=a.j) as ex:
         for name, res in ex.map(run_one, jobs):
+            allres[name] = res
             fired = {p: v for p, v in res.items() if p != '_patch' and v[0] == 1}
             other = {p: v[0] for p, v in res.items() if p != '_patch' and v[0] not in (0, 1)}
+            if DIR != 'seeded':
+                bad = {p: v for p, v in res.items() if p != '_patch' and v[0] != 0}
+                print('%-10s %s %s' % (name, 'silent' if not bad else 'FALSE-ALARM ' + ', '.join('%s(exit %d)%s' % (p, v[0], v[1]) for p, v in bad.items()), res.get('_patch', '')))
+                continue
             print('%-10s %s %s %s' % (name, 'CAUGHT by ' + ', '.join('%s%s' % (p, v[1]) for p, v in fired.items()) if fired else 'missed',
                                       ('(exit!=0/1: %s)' % other) if other else '', res.get('_patch', '')))
+    if a.all_checks or DIR != 'seeded':
+        outp = os.path.join(VERIF, DIR, 'RESULTS.json')
+        old = {}
+        if os.path.exists(outp):
+            with open(outp) as f:
+                old = json.load(f)
+        old.update(allres)
+        with open(outp, 'w') as f:
+            json.dump(old, f, indent=1, sort_keys=True)
 
 
 if __name__ == '__main__':
     main()
+
+
+
+
